@@ -72,7 +72,7 @@ Spec == Init /\ [][Next]_vars
 
 M == 32749
 Mix(a, b) == ((a % M) * 1103 + (b % M) * 2221 + 977) % M
-Sq(x) == (x * x + 5) % M
+Sq(x) == ((x % M) * (x % M) + 5) % M
 Rnd(a, b, c) == Sq(Sq(Mix(Mix(a, b), c)) + (c % M))
 
 PatternNames == << "ones", "alt", "b255", "b0", "b7", "win", "byte", "prand" >>
@@ -185,6 +185,11 @@ InvUnshuffle ==
        /\ IsPermutationOf(un, Input(n))
 
 \* encoders used for the spec -> code direction are right inverses of the byte-level decoders
+InvFlip ==      \* the overflow-free form of flip is the formula of the specification text; so is the big-number pivot
+    /\ \A i \in 0 .. n - 1, p \in 0 .. n - 1 : Flip(i, n, p) = FlipText(i, n, p)
+    /\ \A r \in 1 .. Len(hist) :
+          LET d == PivotDigest(hist[r].p, n, r) IN PivotOfBig(d, n) = PivotOf(d, n) /\ PivotOfBig(PivotDigestBig(hist[r].p, r), n) = hist[r].p
+
 InvCodec ==
     LET es == IF Emit THEN ents ELSE OracleEntries(n, R, Seed, piv, bit, SaltOf(n, hist))
         HT == TableOf(es)
